@@ -103,6 +103,60 @@ func c16Key(r *rand.Rand) string {
 	return strings.Join(parts, ".")
 }
 
+// c16GenDeep: a key set shaped like a deep tree — keys of up to 10 segments that fork at every depth
+// (each new key keeps a prefix of an earlier one and continues with 1-4 segments of its own, often
+// just one: sibling leaves and sibling containers below containers at depth 3, 5, 6, 7, 9), dotted
+// prefixes removed (mode 0) or kept (mode 1).
+func c16GenDeep(r *rand.Rand, mode int) c16KV {
+	seg := func() string { return c16Segs[r.Intn(3+r.Intn(len(c16Segs)-2))] }
+	first := make([]string, pick(r, []int{4, 5, 5, 6, 7, 8, 9, 10}))
+	for i := range first {
+		first[i] = seg()
+	}
+	keys := [][]string{first}
+	for n := 1 + r.Intn(7); n > 0; n-- {
+		base := keys[r.Intn(len(keys))]
+		keep := r.Intn(len(base))
+		if r.Intn(2) == 0 && len(base) >= 3 { // fork close to the end of the earlier key
+			keep = len(base) - 1 - r.Intn(3)
+		}
+		k := append([]string{}, base[:keep]...)
+		for m := 1 + r.Intn(1+r.Intn(4)); m > 0 && len(k) < 10; m-- {
+			k = append(k, seg())
+		}
+		keys = append(keys, k)
+	}
+	set := map[string]bool{}
+	var flat []string
+	for _, k := range keys {
+		if s := strings.Join(k, "."); !set[s] {
+			set[s] = true
+			flat = append(flat, s)
+		}
+	}
+	if mode == 0 {
+		var keep []string
+		for _, a := range flat {
+			bad := false
+			for _, b := range flat {
+				if c16IsPrefix(a, b) {
+					bad = true
+				}
+			}
+			if !bad {
+				keep = append(keep, a)
+			}
+		}
+		flat = keep
+	}
+	r.Shuffle(len(flat), func(i, j int) { flat[i], flat[j] = flat[j], flat[i] })
+	out := c16KV{Pairs: [][2]string{}}
+	for _, k := range flat {
+		out.Pairs = append(out.Pairs, [2]string{k, c16Vals[r.Intn(len(c16Vals))]})
+	}
+	return out
+}
+
 func c16IsPrefix(a, b string) bool { // a is a proper dotted prefix of b
 	return len(a) < len(b) && strings.HasPrefix(b, a+".")
 }
@@ -113,6 +167,27 @@ func c16SiblingPrefix(sorted []string) bool {
 	for i := 0; i+1 < len(sorted); i++ {
 		j := strings.LastIndex(sorted[i], ".")
 		if j > 0 && strings.HasPrefix(sorted[i+1], sorted[i][:j]) && !strings.HasPrefix(sorted[i+1], sorted[i][:j+1]) {
+			return true
+		}
+	}
+	return false
+}
+
+// c16DeepFork: some container at depth >= 3 has at least two children that are containers.
+func c16DeepFork(keys []string) bool {
+	kids := map[string]map[string]bool{}
+	for _, k := range keys {
+		segs := strings.Split(k, ".")
+		for d := 3; d+1 < len(segs); d++ {
+			p := strings.Join(segs[:d], ".")
+			if kids[p] == nil {
+				kids[p] = map[string]bool{}
+			}
+			kids[p][segs[d]] = true
+		}
+	}
+	for _, m := range kids {
+		if len(m) >= 2 {
 			return true
 		}
 	}
@@ -199,15 +274,15 @@ func c16Gen(r *rand.Rand, mode int) c16KV {
 
 func c16Run(c *Ctx) {
 	r := c.Rng
-	for i := 0; i < c.N(1500); i++ {
+	for i := 0; i < c.N(1300); i++ {
 		c.Tick()
 		c.Do("kv", c16Gen(r, 0))
 	}
-	for i := 0; i < c.N(1500); i++ {
+	for i := 0; i < c.N(1300); i++ {
 		c.Tick()
 		c.Do("kv", c16Gen(r, 1))
 	}
-	for i := 0; i < c.N(500); i++ {
+	for i := 0; i < c.N(400); i++ {
 		c.Tick()
 		c.Do("kv", c16Gen(r, 2))
 	}
@@ -215,6 +290,15 @@ func c16Run(c *Ctx) {
 		c.Tick()
 		c.Do("dots", c16GenDots(r))
 	}
+	for i := 0; i < c.N(300); i++ {
+		c.Tick()
+		mode := 0 // 3 in 4 prefix-free
+		if r.Intn(4) == 0 {
+			mode = 1
+		}
+		c.Do("kv", c16GenDeep(r, mode))
+	}
+	c16RunEdge(c)
 	c16RunBig(c)
 	if c.Thorough() && !c.searchMode {
 		for _, u := range [][]string{
@@ -308,6 +392,9 @@ func c16Eval(c *Ctx, kind string, raw []byte) {
 	case "big":
 		c16EvalBig(c, raw)
 		return
+	case "edge":
+		c16EvalEdge(c, raw)
+		return
 	default:
 		return
 	}
@@ -343,6 +430,14 @@ func c16Eval(c *Ctx, kind string, raw []byte) {
 		c.Dist("keys:conflicting")
 	}
 	c.Dist(fmt.Sprintf("keys:n=%d", len(keys)))
+	maxSegs := 0
+	for _, k := range keys {
+		maxSegs = max(maxSegs, strings.Count(k, ".")+1)
+	}
+	c.Dist(fmt.Sprintf("keys:longest=%d-segments", maxSegs))
+	if c16DeepFork(keys) {
+		c.Dist("keys:two-sibling-containers-at-depth>=3")
+	}
 	if c16SiblingPrefix(keys) {
 		c.Dist("keys:sibling-segment-is-string-prefix-of-next")
 	}
@@ -406,7 +501,9 @@ func c16Eval(c *Ctx, kind string, raw []byte) {
 				propsW = map[string]any{"unstable": []any{json.RawMessage(firstP), json.RawMessage(s)}}
 			}
 			if prefixFree {
-				if !c.Direct("flatten(FromProperties(kv))==kv", canon(flattenWire(cb)) == want, map[string]any{"flatten": flattenWire(cb), "kv": json.RawMessage(want)}) {
+				// (the detail is built only for a failing run: this loop is the hot spot of the check)
+				if fw := flattenWire(cb); mustJSON(fw) != want && canon(fw) != want {
+					c.Direct("flatten(FromProperties(kv))==kv", false, map[string]any{"flatten": fw, "kv": json.RawMessage(want)})
 					break
 				}
 			}
@@ -426,7 +523,8 @@ func c16Eval(c *Ctx, kind string, raw []byte) {
 				unflW = map[string]any{"unstable": []any{json.RawMessage(firstU), json.RawMessage(s)}}
 			}
 			if prefixFree {
-				if !c.Direct("flattenPlain(Unflatten(kv))==kv", canon(c16FlatWire(fl)) == want, map[string]any{"flatten": c16FlatWire(fl), "kv": json.RawMessage(want)}) {
+				if fw := c16FlatWire(fl); mustJSON(fw) != want && canon(fw) != want {
+					c.Direct("flattenPlain(Unflatten(kv))==kv", false, map[string]any{"flatten": fw, "kv": json.RawMessage(want)})
 					break
 				}
 			}
@@ -555,6 +653,9 @@ func c16Eval(c *Ctx, kind string, raw []byte) {
 func c16Shrink(kind string, raw []byte) [][]byte {
 	if kind == "big" {
 		return c16ShrinkBig(raw)
+	}
+	if kind == "edge" {
+		return c16ShrinkEdge(raw)
 	}
 	var p c16KV
 	if json.Unmarshal(raw, &p) != nil {
